@@ -25,7 +25,7 @@ MANIFEST = {
                  'all raw strings over a separator alphabet (totality + agreement with a reference decoder)',
     'text': 'All lists of up to three pairs over 11 keys x 12 values (separators, escapes, spaces, non-ASCII), in four '
             'encoder flavours, and all raw strings over {a,=,&,+,%,4,b} up to the length bound are parsed by the real '
-            'code at Request.query / forms / params and compared with the reference model.',
+            'code at Request.query / forms / params and compared with the reference model. Forms are observed through five deliveries (plain, after a complete / partial read of request.body, one-byte and half-body short reads of wsgi.input).',
     'note': 'Bounds: <=3 pairs (quick: all 2-lists, 3-lists over a 5x5 core); raw strings <= 7 (quick) / 9 (thorough). '
             'Trusted: CPython utf-8 decoder, the reference codec in this file.',
 }
